@@ -522,7 +522,10 @@ def faithful_impl(F, tname, trait):
             want = {"self", short_adt(tname) + ", ".join("self." + f_ for f_ in fields)}
             return (len(rets) == 1 and rets[0] in want), "returns %s" % rets
         if short == "Default":
-            okd = all(p_.end[1][0] == "adt" and len(p_.end[1][3]) == len(fields) and all(re.match(r"^(\w+::)*(default|new)$|^vec!\[\]$|^0$|^false$|^None$|^\"\"$", strip(v_)) for v_ in p_.end[1][3]) for p_ in rp)
+            dflt = r"^(\w+::)*(default|new)$|^vec!\[\]$|^0$|^false$|^None$|^\"\"$"
+            okd = all(p_.end[1][0] == "adt" and len(p_.end[1][3]) == len(fields) and all(re.match(dflt, strip(v_)) for v_ in p_.end[1][3]) for p_ in rp)
+            if not okd and len(fields) == 1:
+                okd = all(re.match(dflt, r_) for r_ in rets)      # (the engine prints an id newtype as the number it wraps)
             return okd, "returns %s" % rets
         if len(fields) != 1:
             return False, "ordering of a struct with %d fields is not decided" % len(fields)
@@ -533,6 +536,10 @@ def faithful_impl(F, tname, trait):
             # (`Some(x)` prints as x where the engine knows the variant: `Some(self.cmp(other))` with cmp inlined)
             want = {"partial_cmpself.%s, other.%s" % (f0, f0), "Somecmpself.%s, other.%s" % (f0, f0), "PartialOrd::partial_cmpself.%s, other.%s" % (f0, f0),
                     "cmpself.%s, other.%s" % (f0, f0), "SomeOrd::cmpself.%s, other.%s" % (f0, f0), "Ord::cmpself.%s, other.%s" % (f0, f0)}
+            # delegation to the type's own Ord (decided separately: derived or faithful)
+            own_ord = [i_ for i_ in F.impls if i_.get("of_trait") and i_["self"]["s"].split("<")[0] == tname and i_.get("trait") == "std::cmp::Ord"]
+            if len(own_ord) == 1 and (own_ord[0]["derived"] or faithful_impl(F, tname, "std::cmp::Ord")[0]):
+                want |= {"Somecmpself, other", "cmpself, other", "SomeOrd::cmpself, other"}
         return (len(rets) == 1 and rets[0] in want), "returns %s" % rets
     except Exception as e:
         return False, "not understood (%s)" % type(e).__name__
